@@ -44,7 +44,8 @@ _STATE = {}
 # exceptions raised by the CONSUMERS of a config value during construction (np.random.seed, int()/float() in a
 # model class), not by the configuration machinery: counted, not compared with the model
 CONSUMER_ERRORS = (r'invalid literal for int|could not convert string to float|argument must be a string or a|'
-                   r'Seed must be between|cannot convert float|Cannot cast|cannot be interpreted as an integer')
+                   r'Seed must be between|cannot convert float|Cannot cast|cannot be interpreted as an integer|'
+                   r'unsupported operand type|not supported between instances')
 
 
 # ---------------------------------------------------------------- values and encodings
@@ -907,7 +908,7 @@ def check_cases(ctx, cases, work):
         if obs.get('S', '-') != '-':
             ctx.count('update_raised')
         ce = obs.get('construct_err', ('', ''))
-        if ce[0] in ('Other-ValueError', 'Other-TypeError') and re.search(CONSUMER_ERRORS, ce[1]):
+        if ce[0] in ('Other-ValueError', 'Other-TypeError', 'Other-OverflowError') and re.search(CONSUMER_ERRORS, ce[1]):
             ctx.count('out_of_model_exception')      # raised by a model class that uses the value, not by Config
         elif empty_key(case):
             # an empty field name is written as a continuation line by configparser.write: file syntax, not modelled
